@@ -659,3 +659,114 @@ func cellOf(v ssa.Value) ssa.Value {
 	}
 	return nil
 }
+
+// ---------------------------------------------------------------------------
+// R53: an in-place compaction is truncated before the slice is used;
+//      a buffer handed to the transport is not recycled
+// ---------------------------------------------------------------------------
+
+// R53 (a): `for … { if keep { s[w] = x; w++ } }; s = s[:w]` — between the first
+// element write and the truncation the slice still contains stale tail elements;
+// handing it to anything (sort.Slice!) in that window mixes the stale tail into
+// the kept prefix (sorting first and truncating afterwards drops kept elements and
+// keeps dropped ones).  (b): a slice that was placed into a message given to
+// stream.Send must not be re-used by reslicing it to [:0]: the transport (and any
+// in-process receiver) may still hold the message, and the next batch overwrites
+// the elements it refers to.
+func R53() Rule {
+	return Rule{Name: "R53", Run: func(c *core.Ctx) {
+		P := c.P
+		nA, nB := 0, 0
+		for _, fn := range P.SrcFuncs(core.PkgBttest) {
+			ka := 0
+			for _, b := range fn.Blocks {
+				for _, in := range b.Instrs {
+					st, ok := in.(*ssa.Store)
+					if !ok {
+						continue
+					}
+					sl, ok := core.Resolve(st.Val).(*ssa.Slice)
+					if !ok || sl.High == nil || sl.Low != nil {
+						continue
+					}
+					key := fieldLoadKey(core.Resolve(sl.X))
+					if key == "" || locationOf(st.Addr) == "" || loadedLocation(sl.X) != locationOf(st.Addr) {
+						continue // not `F = F[:w]`
+					}
+					if k, isK := core.ConstInt(sl.High); isK {
+						if k != 0 {
+							continue
+						}
+						// (b) recycling: F = F[:0]
+						loc := locationOf(st.Addr)
+						sent := false
+						for _, f2 := range P.SrcFuncs(core.PkgBttest) {
+							for _, ci := range core.AllCalls(f2) {
+								if ci.Method == nil || len(ci.Method.Name()) < 4 || ci.Method.Name()[:4] != "Send" {
+									continue
+								}
+								for _, a := range ci.Common.Args {
+									if msg, isAlloc := core.Resolve(a).(*ssa.Alloc); isAlloc {
+										for _, r := range core.Referrers(msg) {
+											if fa, isFa := r.(*ssa.FieldAddr); isFa {
+												for _, rr := range core.Referrers(fa) {
+													if s2, isSt := rr.(*ssa.Store); isSt && loadedLocation(s2.Val) == loc {
+														sent = true
+													}
+												}
+											}
+										}
+									}
+								}
+							}
+						}
+						nB++
+						c.Fn(core.FuncName(fn))
+						c.Check(!sent, "R53", fmt.Sprintf("b/%s/recycles-sent-buffer", core.FuncName(fn)), st.Pos(), "the recycled slice is never handed to a stream", "a slice that is placed into a message passed to stream.Send is re-used by reslicing it to [:0]: the next batch overwrites the elements of a response that was already handed to the transport (rows are lost, duplicated or reordered for any receiver that still holds it)")
+						continue
+					}
+					// (a) compaction: element writes into F before this truncation
+					var firstWrite ssa.Instruction
+					for _, b2 := range fn.Blocks {
+						for _, in2 := range b2.Instrs {
+							if s2, isSt := in2.(*ssa.Store); isSt {
+								if ia, isIA := s2.Addr.(*ssa.IndexAddr); isIA && fieldLoadKey(core.Resolve(ia.X)) == key && core.InstrReaches(s2, st) {
+									firstWrite = s2
+								}
+							}
+						}
+					}
+					if firstWrite == nil {
+						continue
+					}
+					nA++
+					ka++
+					c.Fn(core.FuncName(fn))
+					var bad ssa.Instruction
+					for _, ci := range core.AllCalls(fn) {
+						if bi, isB := ci.Common.Value.(*ssa.Builtin); isB && (bi.Name() == "len" || bi.Name() == "cap") {
+							continue
+						}
+						for _, a := range ci.Common.Args {
+							if fieldLoadKey(core.Resolve(core.Strip(a))) == key && core.InstrReaches(firstWrite, ci.Instr) && core.InstrReaches(ci.Instr, st) {
+								bad = ci.Instr
+							}
+						}
+					}
+					construct := fmt.Sprintf("a/%s/compaction-truncated-before-use#%d", core.FuncName(fn), ka)
+					if bad != nil {
+						c.Bad("R53", construct, bad.Pos(), "the slice being compacted in place is handed to %s before it is truncated to the kept prefix: the stale tail takes part (a sort moves dropped elements into the prefix and kept ones out of it)", core.Call(bad).CalleeName())
+					} else {
+						c.Ok("R53", construct, st.Pos(), true, "nothing uses the slice between the compaction and its truncation")
+					}
+				}
+			}
+		}
+		if nA < 1 {
+			c.Ok("R53", "a/no-in-place-compaction", token.NoPos, false, "no in-place compaction in the package")
+		}
+		if nB == 0 {
+			c.Ok("R53", "b/no-recycled-buffers", token.NoPos, false, "no slice is recycled with [:0] after being stored in a field")
+		}
+	}}
+}
